@@ -217,7 +217,47 @@ def run(ctx):
     hide, why = list_hides_only_control(F)
     ctx.check(hide, 'C13.R4', 'serve:List-hides-only-.copia', 'the listing drops an entry only when p.starts_with(".copia")',
               'the List arm hides something else than the .copia control directory (%s)' % why, 'src/bin/copia/serve.rs (serve::serve)')
+    # what the listing is computed from: the scan that hashes every file NOW.  Digests that come out of anything else (an index
+    # kept between requests, a cache keyed on size + mtime) are right only if that store is - a statement about values
+    src_ = listing_sources(F)
+    if src_ is None:
+        ctx.undecided('C13.R4', 'the List arm of serve no longer builds a Response::Fingerprints payload in serve::serve: what it lists is not read')
+    else:
+        others = sorted(x for x in src_ if x != 'meta::discover_local_fingerprints')
+        if 'meta::discover_local_fingerprints' in src_ and not others:
+            ctx.ok('C13.R4', 'serve:List-hashes-the-files', 'the payload is computed from discover_local_fingerprints(root) only', 'src/bin/copia/serve.rs (serve::serve)')
+        else:
+            ctx.undecided('C13.R4', 'the digests List reports are (also) computed by %s: that each is the hash of the file\'s current content - what "already there" and the CAS expectation of every client rest on - is not decided' % ', '.join(o.split('::')[-1] for o in others[:4]))
     ctx.attempt(r5, ctx, F)
+
+
+def listing_sources(F):
+    """the crate functions the Response::Fingerprints payload of serve::serve is computed from (through adaptor calls)"""
+    sv = F.body('serve::serve')
+    if sv is None:
+        return None
+    vfl = flow_of(sv)
+    out = None
+    for bi in vfl.cfg.reachable():
+        for st in sv.blocks[bi]['stmts']:
+            rv = st['rv']
+            if rv['k'] == 'agg' and rv.get('adt') == 'wire::Response' and rv.get('vname') == 'Fingerprints' and rv['ops']:
+                out = set() if out is None else out
+                work, seen_ = [rv['ops'][0]], set()
+                while work and len(seen_) < 400:
+                    cur = work.pop()
+                    if cur['k'] == 'const':
+                        continue
+                    for o in vfl.origins(cur, mut_calls=True):
+                        k_ = (o.kind, str(o.key), o.bb)
+                        if k_ in seen_:
+                            continue
+                        seen_.add(k_)
+                        if o.kind in ('call', 'mutcall') and F.body(str(o.key)) is not None:
+                            out.add(str(o.key))
+                        if o.kind in ('call', 'mutcall') and o.bb is not None:
+                            work += [a for a in sv.blocks[o.bb]['term'].get('args', []) if a['k'] != 'const']
+    return out
 
 
 def put_reply_meaning(F, p):
